@@ -425,6 +425,34 @@ theorem weights_grow {P : Root → Prop} (pr pr' : PA) (h : WF pr) (h' : WF pr')
       | none => rw [hc] at hs; cases hs
       | some j => rw [g.idx_old _ j hc]; rfl
 
+
+/-- insertions keep the weights invariant as long as no applied vote that is not (or no longer) a node becomes one -/
+theorem weights_grow' {P : Root → Prop} (pr pr' : PA) (h : WF pr) (h' : WF pr') (g : Grow P pr pr') (hz' : NoZero pr')
+    (votes : List Vote) (bals : List Nat)
+    (hnr : ∀ v ∈ votes, aGet pr.indices v.cur = none → aGet pr'.indices v.cur = none)
+    (hw : WeightsAre pr votes bals) : WeightsAre pr' votes bals := by
+  have happ : ∀ v ∈ votes, ∀ i, i < pr.nodes.length → appliedIn pr' i v = appliedIn pr i v := by
+    intro v hm i _
+    cases hc : aGet pr.indices v.cur with
+    | none => simp [appliedIn, hc, hnr v hm hc]
+    | some j => exact g.applied_old h h' hz' v (Or.inr (by rw [hc]; rfl)) i
+  have hnew : ∀ v ∈ votes, ∀ i, pr.nodes.length ≤ i → appliedIn pr' i v = false := by
+    intro v hm i hi
+    cases hc : aGet pr.indices v.cur with
+    | none => simp [appliedIn, hnr v hm hc]
+    | some j => exact g.applied_new h h' hz' v (Or.inr (by rw [hc]; rfl)) i hi
+  intro i n hn
+  by_cases hi : i < pr.nodes.length
+  · obtain ⟨m, hm⟩ : ∃ m, pr.nodes[i]? = some m := ⟨_, List.getElem?_eq_getElem hi⟩
+    have := g.nodes_old i m hm
+    rw [hn] at this
+    cases this
+    rw [hw i n hm]
+    exact (wsumFrom_congr pr pr' bals i votes 0 (fun v hm => happ v hm i hi)).symm
+  · have hi' : pr.nodes.length ≤ i := Nat.le_of_not_lt hi
+    rw [(g.nodes_new i n hi' hn).1]
+    exact (wsumFrom_zero pr' bals i votes 0 (fun v hm => hnew v hm i hi')).symm
+
 /-- insertions of nodes with non-zero roots do not create the key `NodeRef.zero` -/
 theorem noZero_grow {P : Root → Prop} (pr pr' : PA) (hz : NoZero pr) (g : Grow P pr pr') (h : WF pr) (h' : WF pr')
     (hP : ∀ r, P r → r ≠ 0) : NoZero pr' :=
